@@ -33,7 +33,7 @@ def safe_names(rng, n, ext, hostile=0.35):
 
 
 class Driver:
-    def __init__(self, world, rng, weights=None, max_cols=6, pool=10, uids=7, ascii_names=False, audit_every=5, hostile=0.35, kinds=("calendar", "addressbook", "plain")):
+    def __init__(self, world, rng, weights=None, max_cols=6, pool=10, uids=7, ascii_names=False, audit_every=5, hostile=0.35, kinds=("calendar", "addressbook", "plain"), blank_values=False):
         self.w = world
         self.rng = rng
         self.weights = dict(DEFAULT_WEIGHTS)
@@ -51,6 +51,7 @@ class Driver:
         self.kinds = kinds
         self.counts = {}
         self.dead_cols = []
+        self.blank_values = blank_values   # display names as typed into a form: sometimes with a blank at the end
 
     # ------------------------------------------------------------ helpers
     def names_for(self, colpath):
@@ -597,6 +598,9 @@ class Driver:
         elif k < 0.5 and col.kind == "addressbook":
             self.w.proppatch(col.path, sets=[(X.P_ABDESC, "descr " + self.w.new_token())])
         else:
+            if self.blank_values and self.rng.random() < 0.3:
+                val += " "
+                self.count("proppatch_blank_at_end")
             self.w.proppatch(col.path, sets=[(X.P_DISPLAYNAME, val)])
         return [col.path]
 
